@@ -186,7 +186,8 @@ func init() {
 			})
 		}
 		hosts = append(hosts, "Example.COM", "WWW.Example.co.UK", "1.2.3.4", "127.0.0.1", "xn--e1afmkfd.xn--p1ai", "a-b.example.com", "a_b.example.com", "a.com.example.com", "x.co.uk.shop.co.uk", "a.b.a.b", "10.4.3.4",
-			"l5.l4.l3.l2.l1.example.com", "l7.l6.l5.l4.l3.l2.l1.example.co.uk", "l9.l8.l7.l6.l5.l4.l3.l2.l1.city.kobe.jp", "a.b.c.d.e.f.g.h.i.github.io", "a.b.c.d.e.f.g.local", "x9.x8.x7.x6.x5.x4.x3.x2.x1.www.ck")
+			"l5.l4.l3.l2.l1.example.com", "l7.l6.l5.l4.l3.l2.l1.example.co.uk", "l9.l8.l7.l6.l5.l4.l3.l2.l1.city.kobe.jp", "a.b.c.d.e.f.g.h.i.github.io", "a.b.c.d.e.f.g.local", "x9.x8.x7.x6.x5.x4.x3.x2.x1.www.ck",
+			"a.b.app.os.stg.fedoraproject.org", "img.shop.app.os.stg.fedoraproject.org", "shop.app.os.stg.fedoraproject.org")
 		exhaustive := true
 		var mu sync.Mutex
 		c.parallel(len(hosts), func(i int) {
@@ -284,6 +285,12 @@ func init() {
 				u := base + strings.Repeat("Aa", (n-len(base))/2+1)
 				u = u[:n]
 				c17CheckURL(c, u, c17Sources[:3], srcDomains[:3], cnt)
+				// the cap falls inside a multi-byte letter of a URL that is longer than the cap (both alignments)
+				for _, b2 := range []string{base, base + "x"} {
+					long := b2 + strings.Repeat("\u00c9", 4200)
+					c17CheckURL(c, long, c17Sources[:3], srcDomains[:3], cnt)
+					c17CheckURL(c, long[:4096], c17Sources[:3], srcDomains[:3], cnt)
+				}
 				// a letter whose lower case has another byte length before the cap
 				kv := base + "\u212a\u023a" + strings.Repeat("Aa", (n-len(base))/2+1)
 				c17CheckURL(c, kv[:n+3], c17Sources[:3], srcDomains[:3], cnt)
